@@ -42,6 +42,9 @@ enum Identity {
     ConfiguredAppended,
     GenuineAppended,
     OtherName,
+    /// quic only: the QUIC endpoint never answers (every datagram is lost) while something accepts TCP on the same port
+    /// number: a client that "falls back" would hand its request to whoever listens there, outside any authenticated transport
+    SilentQuicTcpOpen,
 }
 
 fn identity_files(i: Identity) -> (Vec<&'static str>, &'static str) {
@@ -52,6 +55,7 @@ fn identity_files(i: Identity) -> (Vec<&'static str>, &'static str) {
         Identity::ConfiguredAppended => (vec!["rogue-leaf.crt", "rogue-ca.crt", "ca.crt"], "rogue-leaf.key"),
         Identity::GenuineAppended => (vec!["rogue-leaf.crt", "leaf.crt", "ca.crt"], "rogue-leaf.key"),
         Identity::OtherName => (vec!["othername.crt"], "othername.key"),
+        Identity::SilentQuicTcpOpen => (vec![], ""),
     }
 }
 
@@ -137,15 +141,56 @@ async fn start_quic_impostor(i: Identity) -> Option<Impostor> {
     Some(Impostor { port, completed, app_bytes, task })
 }
 
+/// A UDP socket that swallows everything and a TCP listener on the same port number that reads whatever it is given.
+async fn start_silent_quic_tcp_open() -> Option<Impostor> {
+    for _ in 0..20 {
+        let port = free_port();
+        let Ok(u) = tokio::net::UdpSocket::bind(("127.0.0.1", port)).await else { continue };
+        let Ok(l) = tokio::net::TcpListener::bind(("127.0.0.1", port)).await else { continue };
+        let (completed, app_bytes) = (Arc::new(AtomicU64::new(0)), Arc::new(AtomicU64::new(0)));
+        let (c2, a2) = (completed.clone(), app_bytes.clone());
+        let task = tokio::spawn(async move {
+            let swallow = tokio::spawn(async move {
+                let mut b = vec![0u8; 4096];
+                loop {
+                    let _ = u.recv_from(&mut b).await;
+                }
+            });
+            while let Ok((mut s, _)) = l.accept().await {
+                let (c2, a2) = (c2.clone(), a2.clone());
+                tokio::spawn(async move {
+                    c2.fetch_add(1, Ordering::SeqCst);
+                    let _ = s.write_all(FORGED).await;
+                    let mut b = vec![0u8; 8192];
+                    while let Ok(Ok(n)) = tokio::time::timeout(Duration::from_millis(3000), s.read(&mut b)).await {
+                        if n == 0 {
+                            break;
+                        }
+                        a2.fetch_add(n as u64, Ordering::SeqCst);
+                    }
+                });
+            }
+            swallow.abort();
+        });
+        return Some(Impostor { port, completed, app_bytes, task });
+    }
+    None
+}
+
 async fn one_config(a: Args, idx: usize, proto: Proto, transport: Transport) -> Report {
     let mut rep = Report::new();
     let mut rng = Rng::derive(a.seed, 0xC05E, idx as u64);
     let cfg = Cfg::random(&mut rng, proto, 0);
     let cfgname = format!("{}|{}", proto.name(), transport.name());
     let mut control_ok = false;
-    let ids = [Identity::Genuine, Identity::SelfSigned, Identity::UnrelatedCa, Identity::ConfiguredAppended, Identity::GenuineAppended, Identity::OtherName];
-    for (k, id) in ids.iter().cloned().enumerate() {
-        let imp = if transport == Transport::Quic { start_quic_impostor(id).await } else { start_tls_impostor(id).await };
+    // (identity, client configured with a server name?) - without one the client must hold the certificate against the
+    // address it was given (the genuine leaf names 127.0.0.1 too; the other-name one does not)
+    let mut ids = vec![(Identity::Genuine, true), (Identity::SelfSigned, true), (Identity::UnrelatedCa, true), (Identity::ConfiguredAppended, true), (Identity::GenuineAppended, true), (Identity::OtherName, true), (Identity::Genuine, false), (Identity::OtherName, false), (Identity::UnrelatedCa, false)];
+    if transport == Transport::Quic {
+        ids.push((Identity::SilentQuicTcpOpen, true));
+    }
+    for (k, (id, named)) in ids.iter().cloned().enumerate() {
+        let imp = if id == Identity::SilentQuicTcpOpen { start_silent_quic_tcp_open().await } else if transport == Transport::Quic { start_quic_impostor(id).await } else { start_tls_impostor(id).await };
         let Some(imp) = imp else {
             rep.inconclusive(format!("impostor with identity {:?} does not start (certificates missing? run ./check --setup)", id));
             continue;
@@ -153,7 +198,15 @@ async fn one_config(a: Args, idx: usize, proto: Proto, transport: Transport) -> 
         let dir = work_dir(&a, &format!("c05-{idx}-{k}"));
         let mut d = Deploy::new(cfg.clone(), transport, false, 2, &dir);
         d.server_port = imp.port;
-        let (dj, ddir, t, lvl, cport) = (d.client_json(), d.dir.clone(), format!("c05-{idx}-{k}"), d.log_level.clone(), d.client_port);
+        let mut cj = d.client_json();
+        if !named {
+            for sect in ["ssl", "quic"] {
+                if let Some(o) = cj["servers"][0][sect].as_object_mut() {
+                    o.remove("serverName");
+                }
+            }
+        }
+        let (dj, ddir, t, lvl, cport) = (cj.clone(), d.dir.clone(), format!("c05-{idx}-{k}"), d.log_level.clone(), d.client_port);
         let node = tokio::task::spawn_blocking(move || {
             let mut n = start_node("client", &dj, &ddir, &t, 2, &lvl, None, None).map_err(|e| e.to_string())?;
             wait_ready(&mut n, Some(cport), None, Duration::from_secs(15))?;
@@ -180,7 +233,8 @@ async fn one_config(a: Args, idx: usize, proto: Proto, transport: Transport) -> 
             let _ = s.write_all(b"GET /secret HTTP/1.1\r\nHost: service.example\r\nAuthorization: Basic c2VjcmV0\r\n\r\n").await;
             let mut got = Vec::new();
             let mut b = vec![0u8; 4096];
-            while let Ok(Ok(n)) = tokio::time::timeout(Duration::from_millis(1200), s.read(&mut b)).await {
+            let patience = if id == Identity::SilentQuicTcpOpen { 4500 } else { 1200 };
+            while let Ok(Ok(n)) = tokio::time::timeout(Duration::from_millis(patience), s.read(&mut b)).await {
                 if n == 0 {
                     break;
                 }
@@ -194,8 +248,19 @@ async fn one_config(a: Args, idx: usize, proto: Proto, transport: Transport) -> 
         tokio::time::sleep(Duration::from_millis(300)).await;
         let (completed, app_bytes) = (imp.completed.load(Ordering::SeqCst), imp.app_bytes.load(Ordering::SeqCst));
         rep.mon(&format!("handshakes_offered_with_identity:{:?}", id).to_lowercase(), 3);
-        let ctx = json!({"seed": a.seed, "client": d.client_json(), "identity": format!("{:?}", id), "presented_chain": identity_files(id).0, "handshakes_completed": completed, "application_bytes_at_the_impostor": app_bytes, "bytes_delivered_to_the_application": delivered, "client_log": node.log_tail(6)});
+        let ctx = json!({"seed": a.seed, "client": cj, "client_configured_with_a_server_name": named, "identity": format!("{:?}", id), "presented_chain": identity_files(id).0, "handshakes_completed": completed, "application_bytes_at_the_impostor": app_bytes, "bytes_delivered_to_the_application": delivered, "client_log": node.log_tail(6)});
         if id == Identity::Genuine {
+            if !named {
+                // second control: the genuine certificate names the address as well
+                rep.mon("control_handshakes_completed_without_a_configured_server_name", completed);
+                if completed == 0 {
+                    rep.note(format!("{cfgname}: without a configured server name the genuine server is refused (the impostor cases of that variant then observe nothing)"));
+                }
+                drop(node);
+                drop(imp);
+                let _ = std::fs::remove_dir_all(&dir);
+                continue;
+            }
             control_ok = completed > 0 && app_bytes > 0;
             rep.mon("control_handshakes_completed_with_the_genuine_identity", completed);
             if !control_ok {
@@ -208,7 +273,7 @@ async fn one_config(a: Args, idx: usize, proto: Proto, transport: Transport) -> 
             rep.mon("impostor_handshakes_refused", if completed == 0 { 3 } else { 0 });
             if completed > 0 || app_bytes > 0 {
                 rep.violation(
-                    format!("C05|impostor|{}|{:?}|handshake-completed-with-a-server-that-is-not-the-configured-one", cfgname, id).to_lowercase(),
+                    format!("C05|impostor|{}|{:?}{}|{}", cfgname, id, if named { "" } else { "+no-server-name-configured" }, if id == Identity::SilentQuicTcpOpen { "request-handed-to-a-plain-tcp-listener-on-the-server's-port" } else { "handshake-completed-with-a-server-that-is-not-the-configured-one" }).to_lowercase(),
                     format!("{cfgname}: the client completed {completed} {} handshake(s) with a server presenting {:?} and sent it {app_bytes} bytes of application data", transport.name(), identity_files(id).0),
                     ctx.clone(),
                 );
